@@ -269,6 +269,21 @@ def replay_case(args):
                         % (what, len(got2), len(expv), extra[:4], sorted(set(expv) - set(got2))[:4]))
                 elif o2.status != "returned" and expv:
                     bad("D", "%s-parallel" % what, "%s with 2 workers ended as %s under the scheduler (C01 / C03 judge termination)" % (what, o2.status))
+        # (3a'') the filter given as a callable OBJECT that happens to be falsy (a collection of footprint boxes, empty or not,
+        # whose __call__ decides by position): "no filter" is `None`, nothing else
+        if kind == "toast" and not plain and apex == ROOT:
+            class Boxes(list):
+                def __call__(self, tile):
+                    return tuple(tile.pos) in acc
+            from toasty.pyramid import Pyramid as _P
+            for name, key in (("count_leaf_tiles", "lf"), ("count_live_tiles", "lv"), ("count_operations", "op")):
+                try:
+                    v = getattr(_P.new_toast_filtered(depth, Boxes()), name)()
+                except Exception as e:  # noqa
+                    bad("V", "falsy-filter:" + name, "[filter = an empty list subclass with __call__] %s raised %r" % (name, e))
+                    continue
+                if v != fin[key] and not (exp_pos == [] and v == 0):
+                    bad("V", "falsy-filter:" + name, "[filter = a callable object whose truth value is False] %s() = %r, spec %r" % (name, v, fin[key]))
         # (3b) the same filter decided from the tile's GEOMETRY (as footprint filters do) in each coordinate system: the
         # pyramid must show its filter tiles of its own coordinate system everywhere - counts, leaf visits and walks
         if kind == "toast" and not plain and depth >= 1:
